@@ -69,9 +69,28 @@ def _err_or_raise(part, e, key, case):
     raise
 
 
+_LAST = {}
+
+
+def _stable(part, key, case, value):
+    """A value handed out earlier must not change when the same conversion is used again (an
+    expression can hold several results at once)."""
+    prev = _LAST.get(key)
+    if prev is not None and bytes(prev[0]._buffer) != prev[1] and prev[0] is not value:
+        part.violation('%s/earlier-result-changed' % key, 'the result %s of an earlier call reads %s after the call for %r' % (
+            prev[1].hex(), bytes(prev[0]._buffer).hex(), case), case)
+    elif prev is not None and prev[0] is value:
+        part.violation('%s/same-object-returned-twice' % key, 'two calls returned the same value object (%r)' % (case,), case)
+    if hasattr(value, '_buffer') and len(value._buffer) in (2, 4, 8):
+        _LAST[key] = (value, bytes(value._buffer))
+
+
 def _call(part, key, case, fn, arg):
     try:
-        return ('ok', fn([arg]))
+        r = fn([arg])
+        if r is not arg:
+            _stable(part, key, case, r)
+        return ('ok', r)
     except BASICError as e:
         return ('err', e.err)
     except Exception as e:
@@ -295,6 +314,7 @@ def work_int_all(shard):
             for p in prefixes:
                 try:
                     back = ('ok', sv.from_repr(p + txt, False))
+                    _stable(part, 'from_repr', case, back[1])
                 except BASICError as e:
                     back = ('err', e.err)
                 except Exception as e:
@@ -326,7 +346,7 @@ def work_int_all(shard):
     return part
 
 
-_SESS_KEYS = {'&H': 'hex', '&O': 'oct', '&': 'oct-bare', 'VAL&H': 'val-hex', 'VAL&O': 'val-oct', 'CVI': 'cvi',
+_SESS_KEYS = {'PAIR': 'two-radix-values-in-one-expression', 'PAIR2': 'two-conversions-in-one-expression', '&H': 'hex', '&O': 'oct', '&': 'oct-bare', 'VAL&H': 'val-hex', 'VAL&O': 'val-oct', 'CVI': 'cvi',
               'CINT!': 'cint-single', 'CINT#': 'cint-double', 'MKI': 'mki'}
 
 
@@ -335,8 +355,9 @@ def work_int_session(shard):
     part = Partial()
     s = H.new_session()
     ev = s.evaluate
+    prev = shard[-1]
     for i in shard:
-        case = {'op': 'int-session', 'i': i}
+        case = {'op': 'int-session', 'i': i, 'prev': prev}
         try:
             h = ev(b'HEX$(%d)' % i)
             o = ev(b'OCT$(%d)' % i)
@@ -346,6 +367,9 @@ def work_int_session(shard):
                 ('CVI', ev(b'CVI(MKI$(%d))' % i)),
                 ('CINT!', ev(b'CINT(CSNG(%d))' % i)), ('CINT#', ev(b'CINT(CDBL(%d))' % i)),
                 ('MKI', ev(b'MKI$(%d)' % i)),
+                ('PAIR', ev(b'VAL("&H"+HEX$(%d)) XOR VAL("&O"+OCT$(%d))' % (i, prev))),
+                ('PAIR2', ev(b'(VAL("&O"+OCT$(%d))=VAL("&H"+HEX$(%d)))+2*(CVI(MKI$(%d))=CVI(MKI$(%d)))+4*(CINT(CSNG(%d))=CINT(CDBL(%d)))' % (
+                    i, prev, i, prev, i, prev))),
             ]
         except Exception as e:
             if from_pcbasic(e):
@@ -355,10 +379,15 @@ def work_int_session(shard):
         part.n += len(res) + 2
         for name, v in res:
             want = struct.pack('<h', i) if name == 'MKI' else i
+            if name == 'PAIR':
+                want = num.s16((i ^ prev) & 0xffff)
+            elif name == 'PAIR2':
+                want = -7 if i == prev else 0
             if v != want:
                 part.violation('session/%s-roundtrip' % _SESS_KEYS[name],
                                '%s of %d (HEX$=%r OCT$=%r) gave %r' % (name, i, h, o, v), case)
         part.classes.add('sess %s' % ('-' if i < 0 else '+' if i else '0'))
+        prev = i
     part.traces = part.n
     part.sample({'ints': shard[:3]})
     return part
@@ -538,7 +567,7 @@ def replay(ctx, leg, case):
     if case.get('op') in ('int', 'int-session') or 'i' in case:
         i = case['i']
         if leg == 'int-session':
-            return work_int_session([i])
+            return work_int_session([case.get('prev', i), i])
         return work_int_all((i, i + 1))
     b = bytes(case['bytes'])
     if len(b) == 2:
